@@ -76,3 +76,52 @@ Proof. vm_compute. reflexivity. Qed.
 (* (x * 255. + 0.5) as u8  and  as u32 : layer opacity / blend_surface_with_alpha, global alpha *)
 Definition unit_to_u8 (x : f32) : Z := to_u8 (fadd (fmul x f255) fhalf).
 Definition unit_to_u32 (x : f32) : Z := to_u32 (fadd (fmul x f255) fhalf).
+
+(* ---- f32 % f32 (fmod: exact, sign of the dividend) ---- *)
+Definition frem (x y : f32) : f32 :=
+  match x, y with
+  | B754_nan _ _ _ _ _, _ | _, B754_nan _ _ _ _ _ => of_bits 2143289344
+  | B754_infinity _ _ _, _ => of_bits 2143289344
+  | _, B754_zero _ _ _ => of_bits 2143289344
+  | B754_zero _ _ _, _ => x
+  | _, B754_infinity _ _ _ => x
+  | B754_finite _ _ sx mx ex _, B754_finite _ _ sy my ey _ =>
+      let e := Z.min ex ey in
+      let X := Zpos mx * 2 ^ (ex - e) in
+      let Y := Zpos my * 2 ^ (ey - e) in
+      let R := Z.rem X Y in
+      if R =? 0 then (if sx then fneg f0 else f0)
+      else binary_normalize 24 128 prec32 emax32 mode_NE (if sx then - R else R) e false
+  end.
+
+(* ---- binary64 for f32::hypot: glibc's hypotf is the correctly rounded f32 of
+   sqrt((double)x*x + (double)y*y) (re-validated against the crate by the harness) ---- *)
+Lemma prec64 : FLX.Prec_gt_0 53. Proof. reflexivity. Qed.
+Lemma emax64 : (53 < 1024)%Z. Proof. reflexivity. Qed.
+Definition to64 (x : f32) : binary64 :=
+  match x with
+  | B754_zero _ _ s => B754_zero 53 1024 s
+  | B754_infinity _ _ s => B754_infinity 53 1024 s
+  | B754_nan _ _ _ _ _ => b64_of_bits 9221120237041090560
+  | B754_finite _ _ s m e _ => binary_normalize 53 1024 prec64 emax64 mode_NE (if s then Zneg m else Zpos m) e false
+  end.
+Definition of64 (x : binary64) : f32 :=
+  match x with
+  | B754_zero _ _ s => B754_zero 24 128 s
+  | B754_infinity _ _ s => B754_infinity 24 128 s
+  | B754_nan _ _ _ _ _ => of_bits 2143289344
+  | B754_finite _ _ s m e _ => binary_normalize 24 128 prec32 emax32 mode_NE (if s then Zneg m else Zpos m) e s
+  end.
+Definition fhypot (x y : f32) : f32 :=
+  let a := to64 x in let b := to64 y in
+  if is_nan 24 128 x || is_nan 24 128 y then
+    (match x, y with B754_infinity _ _ _, _ | _, B754_infinity _ _ _ => B754_infinity 24 128 false | _, _ => of_bits 2143289344 end)
+  else of64 (b64_sqrt mode_NE (b64_plus mode_NE (b64_mult mode_NE a a) (b64_mult mode_NE b b))).
+
+Example f32_sanity2 :
+  (to_bits (frem (of_bits 1088421888) (of_bits 1075838976)),   (* 7 % 2.5 = 2 *)
+   to_bits (frem (fneg (of_bits 1088421888)) (of_bits 1075838976)),
+   to_bits (fhypot (of_int 3) (of_int 4)),
+   to_bits (fhypot (of_bits 1036831949) (of_bits 1045220557)))
+  = (1073741824, 3221225472, 1084227584, 1046804782).
+Proof. vm_compute. reflexivity. Qed.
